@@ -6,7 +6,7 @@ import ast
 from sa import flow
 from sa.model import AnalysisError, dotted, names_in, unparse
 from sa.rules import LEVEL_TEXT, rule
-from sa.rules.util import is_self_attr, iter_body_nodes, locals_defined_by, one_local, own_methods, pfind, pmatch, qual
+from sa.rules.util import closure_functions, is_self_attr, iter_body_nodes, locals_defined_by, one_local, own_methods, pfind, pmatch, qual
 
 LEVEL_TEXT["C03"] = (
     "Decides structural necessary conditions of C03: which comparison operators may be handed to the file reader "
@@ -694,3 +694,48 @@ def r03i(ctx):
             if any(pol and t == f"{a0}._filter_passthrough_reorders_rows" for t, pol in facts) and any("Elemwise" in t for t, pol in facts):
                 consulted = True
     (ctx.ok if consulted else ctx.bad)("_expr.is_filter_pushdown_available:order-dependent-predicate", mod.loc(fn), "refuses predicates that are not row-wise / reductions below a reordering operator" if consulted else "the legality test does not refuse order-dependent predicates below operators that reorder rows")
+
+
+# ---------------------------------------------------------------------------------------------
+# R03j
+# ---------------------------------------------------------------------------------------------
+
+
+@rule(
+    "R03j",
+    ["C03", "C01"],
+    """A JOIN ONLY LETS ROW-WISE PREDICATES PASS: a join adds, drops and duplicates rows, so a predicate term that is not computed
+    row by row from the join result (a reduction wrapped in arithmetic, a cumulative / shifted / rolling value) means something else
+    when it is evaluated on one input. Merge._filter_passthrough_available - through the helpers that walk the predicate - must refuse
+    (return None / False) when a node of the walk is not Elemwise, or ask the shared legality test with allow_reduction=False.
+    m[m.a > m.a.mean() * 1.0] returned 0 of 3 rows without it.""",
+)
+def r03j(ctx):
+    model = ctx.model
+    c = model.cls("Merge", "_merge")
+    fn = model.method(c, "_filter_passthrough_available", own=True).node
+    fns = closure_functions(model, c.module, c, fn, depth=2)
+    ok = None
+    for mod, cls, f in fns:
+        if mod is not c.module:
+            continue
+        for call in (x for x in ast.walk(f) if isinstance(x, ast.Call)):
+            if dotted(call.func) in ("is_filter_pushdown_available", "_check_dependents_are_predicates") and any(kw.arg == "allow_reduction" and isinstance(kw.value, ast.Constant) and kw.value.value is False for kw in call.keywords):
+                ok = (mod.loc(call), "asks the shared legality test with allow_reduction=False")
+        pops = locals_defined_by(f, "V_stack.pop()")
+        for p in flow.returns(f):
+            v = p.stmt.value
+            refuses = v is None or (isinstance(v, ast.Constant) and v.value in (None, False))
+            if not refuses:
+                continue
+            for t, pol in flow.facts(p):
+                if pol:
+                    continue
+                for nv in pops:
+                    if pmatch(f"isinstance({nv}, Elemwise)", t) is not None:
+                        ok = (mod.loc(p.stmt), f"the predicate walk of {f.name} refuses nodes that are not Elemwise")
+    cid = "_merge.Merge._filter_passthrough_available:row-wise-only"
+    if ok:
+        ctx.ok(cid, *ok)
+    else:
+        ctx.bad(cid, c.module.loc(fn), "the join's legality test walks the predicate without refusing nodes that are not Elemwise (only a reduction that IS the right operand of the top comparison is refused): m[m.a > m.a.mean() * 1.0], m[m.a - m.a.mean() > 0], m[m.a.cumsum() > 60] are pushed into one input of the join, where the reduction / cumulative value is taken over other rows")
